@@ -15,9 +15,20 @@ Reference (written from the property text, never from the code):
   * Split is block-granular as the property says: it may pull whole blocks of bufsize, the next block only when a
     result beyond those of the blocks read so far is demanded;
   * needs compose backwards through the pipeline (need_{e1;e2}(k) = need_e1(need_e2(k)));
-  * islice's documented behaviour of reading up to `stop` when asked for more is allowed as an upper bound
-    (the lower bound is the semantic one), so every expectation is an interval lo <= observed <= hi.
-Weak-reference liveness of the input values is used for the two "holds / keeps alive" clauses."""
+  * only a Slice can know that its output is complete before its input ends (selectors and nested sequences are
+    opaque to the element that runs them).  itertools.islice's documented behaviour of reading max(start, stop)
+    values when it is asked for more than it has, and the documented "reads the whole flow" of a negative start, are
+    allowed as upper bounds (the lower bound is the semantic one), so every expectation is an interval
+    lo <= (pulled, end probed) <= hi; for the k-th result of every pipeline of the scopes lo == hi except behind such
+    an exhausted Slice.
+Reading decisions: the property speaks about the state after the k-th result; the step "the consumer asks for one more
+and there is none" must terminate whenever that is decidable from a finite prefix of a non-negative Slice, and may not
+read beyond the bound above.  Termination of a negative-start Slice on an infinite input is not demanded.
+Weak-reference liveness of the input values is used for the two "holds / keeps alive" clauses: at most bufsize input
+values alive after every result of a Split (the processed previous block may still be referenced while the next one is
+being read: not counted against it), at most max|negative index| input values alive at every pull and after every
+result of a negative Slice.  Counter marks are not compared where documented context sharing (copy_buf=False) or an
+abandoned run of a nested Count makes them depend on more than the denotation."""
 import contextlib
 import io
 import itertools
@@ -1217,8 +1228,8 @@ def body(R):
 
     ns = lengths(T)
     R.scope("single streaming elements: Sequence(e).run(input) and Source(input, e)()",
-            "the input as an iterator and as an iterable without __next__; the empty pipeline and %d element instances (callable, callable object, Variable, Print, Context, UpdateContext, MakeFilename, "
-            "UpdateContextFromStatic, 6 Filters, Count, 11 non-negative and 12 negative Slices, 5 RunIf, 15 Splits incl. "
+            "the input as an iterator and as an iterable without __next__; the empty pipeline and %d element instances "
+            "(callable, callable object, Variable, Print, Context, UpdateContext, MakeFilename, UpdateContextFromStatic, 6 Filters, Count, 11 non-negative and 12 negative Slices, 5 RunIf, 15 Splits incl. "
             "bufsize 1/2/3/4/1000/None, Source / fill-compute / Slice / Count / nested-Split branches); input lengths %s "
             "(None = infinite with a %d-pull watchdog, %d results taken); every consumer stop point k = 0..all results "
             "and exhaustion; after each k: (pulled, end probed) within the determining-prefix interval"
@@ -1320,8 +1331,10 @@ def body(R):
         for m in stops_:
             bad = infinite_source_case(which, m)
             R.case(True, {"source": which, "n": m})
+            who = {"CountFrom": "CountFrom.__call__", "split-with-infinite-source-branch": "Split.run(Source branch)"}.get(
+                which, "Source.__call__")
             for clause, text in bad:
-                R.fail("Source.__call__/" + clause, "%s with Slice(%d): %s" % (which, m, text), {"source": which, "n": m},
+                R.fail(who + "/" + clause, "%s with Slice(%d): %s" % (which, m, text), {"source": which, "n": m},
                        {"fn": "replay_infinite_source", "args": [which, m]})
 
 
